@@ -93,6 +93,7 @@ import (
 	"path/filepath"
 	"slices"
 	"strings"
+	"sync"
 	"sync/atomic"
 	"time"
 
@@ -397,10 +398,14 @@ func (c *fsCache) Set(key string, entry []byte) error {
 	ctx, cancel := context.WithTimeout(context.Background(), c.timeout)
 	defer cancel()
 
+	// The writer goes on after the timeout was reported. It must not make its value visible any
+	// more then: a later Set or Delete of the key would be undone by a write that had already
+	// failed. publish runs the step that makes the value visible, unless the write was abandoned.
+	var gate abandonGate
 	errc := make(chan error, 1)
 	go func() {
 		defer close(errc)
-		err := c.set(key, entry)
+		err := c.set(key, entry, gate.publish)
 		if err != nil {
 			errc <- &Error{"Set", key, err}
 			return
@@ -410,13 +415,36 @@ func (c *fsCache) Set(key string, entry []byte) error {
 
 	select {
 	case <-ctx.Done():
+		gate.abandon()
 		return ctx.Err()
 	case err := <-errc:
 		return err
 	}
 }
 
-func (c *fsCache) set(key string, entry []byte) error {
+// abandonGate serialises the step that makes an operation's effect visible with the decision to
+// give the operation up.
+type abandonGate struct {
+	mu        sync.Mutex
+	abandoned bool
+}
+
+func (g *abandonGate) publish(step func() error) error {
+	g.mu.Lock()
+	defer g.mu.Unlock()
+	if g.abandoned {
+		return context.DeadlineExceeded
+	}
+	return step()
+}
+
+func (g *abandonGate) abandon() {
+	g.mu.Lock()
+	g.abandoned = true
+	g.mu.Unlock()
+}
+
+func (c *fsCache) set(key string, entry []byte, publish func(step func() error) error) error {
 	if c.enc != nil {
 		var err error
 		entry, err = c.enc.Encrypt(entry)
@@ -450,7 +478,7 @@ func (c *fsCache) set(key string, entry []byte) error {
 	if err := f.Close(); err != nil {
 		return fail(err)
 	}
-	if err := c.root.Rename(tmp, name); err != nil {
+	if err := publish(func() error { return c.root.Rename(tmp, name) }); err != nil {
 		return fail(err)
 	}
 	return nil
@@ -466,10 +494,11 @@ func (c *fsCache) Delete(key string) error {
 	ctx, cancel := context.WithTimeout(context.Background(), c.timeout)
 	defer cancel()
 
+	var gate abandonGate // see Set
 	errc := make(chan error, 1)
 	go func() {
 		defer close(errc)
-		err := c.delete(key)
+		err := c.delete(key, gate.publish)
 		if err != nil {
 			errc <- &Error{"Delete", key, err}
 			return
@@ -479,14 +508,16 @@ func (c *fsCache) Delete(key string) error {
 
 	select {
 	case <-ctx.Done():
+		gate.abandon()
 		return ctx.Err()
 	case err := <-errc:
 		return err
 	}
 }
 
-func (c *fsCache) delete(key string) error {
-	err := c.root.Remove(c.fn.FileName(key))
+func (c *fsCache) delete(key string, publish func(step func() error) error) error {
+	name := c.fn.FileName(key)
+	err := publish(func() error { return c.root.Remove(name) })
 	if err != nil {
 		if errors.Is(err, os.ErrNotExist) {
 			err = errors.Join(driver.ErrNotExist, err)
